@@ -26,12 +26,13 @@ Lemma construct1_spec (xs fs : list T) (x_dim f_dim : T) (o : object1 T) :
   o_state o = init Ops /\
   o_xs o = scale_units Ops x_dim xs /\ o_fs o = scale_units Ops f_dim fs /\
   o_dom o = (nth0 Ops (o_xs o) 0, nth0 Ops (o_xs o) (length xs - 1)) /\
-  length xs = length fs /\ (2 <= length xs)%nat /\ strictly_increasing Ops xs = true.
+  length xs = length fs /\ (2 <= length xs)%nat /\ strictly_increasing Ops (o_xs o) = true.
 Proof.
   unfold construct1.
   destruct (Nat.eqb (length xs) (length fs)) eqn:E1; cbn [negb]; [|discriminate].
   destruct (Nat.ltb (length xs) 2) eqn:E2; [discriminate|].
-  destruct (strictly_increasing Ops xs) eqn:E3; cbn [negb]; [|discriminate].
+  cbv zeta.
+  destruct (strictly_increasing Ops (scale_units Ops x_dim xs)) eqn:E3; cbn [negb]; [|discriminate].
   intros H. injection H as <-. cbn.
   apply Nat.eqb_eq in E1. apply Nat.ltb_ge in E2. repeat split; auto.
 Qed.
